@@ -39,3 +39,19 @@ pub(crate) fn any_vec<const CAP: usize>() -> Vec<u8> {
     }
     v
 }
+
+/// Replaces `std::hash::RandomState::new`: fixed SipHash keys instead of the
+/// `getrandom(2)` system call (not executable under Kani). The keys only
+/// randomise bucket order; no property depends on them.
+pub(crate) fn random_state_fixed() -> std::hash::RandomState {
+    const _SIZE: () = assert!(std::mem::size_of::<std::hash::RandomState>() == 16);
+    unsafe { std::mem::transmute::<(u64, u64), std::hash::RandomState>((0x0123_4567_89ab_cdef, 0x0f1e_2d3c_4b5a_6978)) }
+}
+
+/// Replace SipHash by the constant hash 0 (every key lands in one bucket; the
+/// map stays correct through key equality). Hashing a symbolic key bit-blasts
+/// SipHash-1-3 and did not finish in CBMC.
+pub(crate) fn hasher_write_noop(_h: &mut std::hash::DefaultHasher, _bytes: &[u8]) {}
+pub(crate) fn hasher_finish_zero(_h: &std::hash::DefaultHasher) -> u64 {
+    0
+}
